@@ -5,12 +5,35 @@ import spfgen as G
 ID = 'C11'
 COQ_TARGETS = ['Props/Properties_C11.vo']
 PROPS_FILES = ['Props/Properties_C11.v']
-THEOREMS = ['C11_check_host', 'C11_check_host_c', 'C11_limit_is_rfc', 'C11_bad_token_clean', 'C11_exp_text_clean', 'C11_received_spf_clean']
+THEOREMS = ['C11_check_host', 'C11_check_host_c', 'C11_limit_is_rfc', 'C11_rfc_constants', 'C11_bad_token_clean', 'C11_exp_text_clean', 'C11_received_spf_clean']
 ENGINES = [dict(name='spf', c_sources=['spf_h.c'], extract='Extract/Extract_spf.v', driver='spf_driver.ml',
                 glue=('glue.ml', 'glue_z.ml'), accepts=lambda c: c.startswith('c1 '))]
-RULE = 'tbd'
-TRUSTED_BASE = []
-ASSUMPTIONS = []
+RULE = ('cases = (sender domain, client address v4/v6, sender, HELO, reverse name, zone); zone = TXT/A/AAAA/MX/PTR answers or injected errors per name '
+        'over a small universe of names. Streams: records drawn from the SPF grammar (700, one third mutated bytewise), the same with macros (500), '
+        'records with 8..13 DNS querying terms flat / nested by include / chained by redirect / cyclic / include+redirect trees (600), '
+        'random macro strings in domain-specs, modifiers and explanation texts (900), arbitrary bytes in bad tokens and explanation texts (500), plus the corpus '
+        '(replays of F-C11-1..8 and boundary cases). non-trivial = the implementation made at least two resolver calls; distinct by case text')
+TRUSTED_BASE = [
+    'Coq 8.16.1 kernel (coqc; coqchk in thorough); vm_compute in the non-vacuity example and for the literal pieces of the Received-SPF header; no native_compute',
+    'axioms: none (Print Assumptions: Closed under the global context for all seven theorems)',
+    'translator tools/translators/spf.py: regexes over qsmtpd/spf.c and include/qsmtpd/antispam.h produce coq/Gen/GenSpf.v (result codes, DNS term limit and the six places it is tested, '
+    'mechanism chain, MX/PTR/CIDR/prefix/length limits, both sanitiser expressions, result[] and the 26 literal pieces of spfreceived())',
+    'hand-written models coq/Model/Spf.v (core), SpfBase.v (strtol/strtoul/inet_pton as in glibc, ip4/ip6_matchnet, domainvalid), SpfMacro.v (macro expansion, functional) '
+    'tied to qsmtpd/spf.c, lib/match.c, lib/dns_helpers.c by the correspondence run (differential testing under ASan/UBSan, bounded by the generator)',
+    'the resolver is an oracle at the level of dnstxt_records/ask_dnsa/ask_dnsaaaa/ask_dnsmx/ask_dnsname: lib/qdns.c and libowfat are not modelled; '
+    'harness/spf_h.c answers these five functions from the zone of the case',
+    'extraction with ExtrOcamlBasic only (no Extract Constant); ocaml/glue.ml, glue_z.ml, spf_driver.ml (hex parsing, printing, zone entries decoded by the extracted coq/Model/SpfZone.v)',
+    'C harness harness/spf_h.c: #include of qsmtpd/spf.c, lib/match.c, lib/dns_helpers.c, lib/fmt.c, qsmtpd/antispam.c (dotip6) with write() and time() redirected; gcc 12 -O1 -DNDEBUG ASan+UBSan vs. production build; char is signed (x86-64)',
+    'inet_ntop() of the client address is an input of the case (computed by the generator with the same libc), checked by the harness',
+]
+ASSUMPTIONS = [
+    'xmitstat.spfexp is NULL or clean 7-bit text and xmitstat.spfmechanism NULL or a mechanism name when check_host() is entered (state_ok; established by the theorem itself for every later call, NULL at session start)',
+    'a non-empty xmitstat.mailfrom is local@domain with both parts non-empty, and HELO name or reverse name is non-empty (addrsyntax()/smtp_helo are outside this model); cases violating it are skipped (pre)',
+    'resolver answers are functions of the name (one zone per evaluation); ask_dnsmx() returns entries with at least one address',
+    'Received-SPF: heloname, HELO, sender and client address text are printable ASCII (sess_ok); they come from the session, not from DNS, except the reverse name when no HELO differs from it',
+    'macro expansion (spf_makro and below) is covered by correspondence only: the theorems hold for every expander, the memory safety of the real one was exercised under ASan, not proved',
+    'fixes/C11-*.diff are applied: the unfixed tree violates the term limit (F-C11-1) and crashes on F-C11-3..8 inputs (corpus/C11/spf.cases)',
+]
 
 def gen_cases(engine, rng, tier):
     k = 1 if tier == 'quick' else 25
@@ -53,7 +76,15 @@ def distribution(results):
         if r['spec'] == 'pre': d['outside_precondition'] = d.get('outside_precondition', 0) + 1
     return d
 
-LEVEL_TEXT = 'tbd'
-LEVEL_NOTE = 'tbd'
-TECHNIQUE = 'tbd'
+LEVEL_TEXT = ('Machine-checked Coq theorems over an executable model of check_host()/spflookup() (qsmtpd/spf.c with fixes/C11-*.diff), for EVERY resolver behaviour '
+              '(all zones, cyclic include/redirect graphs, injected errors), every session and every macro expander: evaluation terminates; the result is one of the '
+              'RFC 7208 results (or -1 only if a resolver call reported a local error); at most 10 DNS querying terms are evaluated and an 11th is refused with fail; '
+              'spflookup(NULL) is unreachable; xmitstat.spfexp only ever holds bytes 32..127 (33..126 without ( ) \\ from record_bad_token) and the Received-SPF header '
+              'built from it is a well formed folded 7-bit header field. Agreement with the RFC 7208 algorithm and macro expansion are NOT proved (correspondence / tests only).')
+LEVEL_NOTE = ('Trusted: Coq kernel, translator regexes, extraction (ExtrOcamlBasic), harness with the resolver answered from the case, generator quality of the correspondence run. '
+              'The theorem is about the fixed code; seven fixes are proposed (F-C11-1, 3..8). Partial with respect to the property text: "agrees with the RFC 7208 check_host()" is '
+              'not established beyond what the correspondence of model and C plus the repo\'s own OpenSPF-suite tests give; known deviations are listed in reports/C11.md.')
+TECHNIQUE = ('Coq: invariant (terms evaluated <= counter, <= limit, spfexp clean) carried through an open-recursion model (term loop structural on the record, recursion on fuel = limit + 2), '
+             'byte-map lemmas for the two sanitisers, reflection over the translator-generated header pieces; model-vs-C differential run under ASan/UBSan with a zone-driven fake resolver; '
+             'boolean checker on C outputs (result set, clean bytes, lower bound on evaluated terms from the resolver calls)')
 DESIGN_REF = 'DESIGN.md section 5, C11'
